@@ -832,7 +832,7 @@ func first(a, _ []byte) []byte { return a }
 //@   opt extent on
 //@   requires WF1in_collation(t)
 //@   ensures[scratch_bounded] scratchLen(t.cok.buf) < 2147483648
-//@   ensures[pure] frameExcept("collationSortedTree.cok.src")
+//@   ensures[pure] frameExcept("collationSortedTree.cok.src", "CollationOrderKey.src")
 //@   loop 1 (depth)
 //@     invariant 0 <= depth && depth <= len(colKey)
 //@     invariant liveRef(n)
@@ -854,7 +854,7 @@ func first(a, _ []byte) []byte { return a }
 //@   ensures[wf] WF1_collation(t)
 //@   ensures[size] t.size == old(t.size) - ite(result, 1, 0)
 //@   ensures[empty_is_initial] implies(result && rootTag0 == 4, t.root.pointer == nil && t.root.tag == 0)
-//@   ensures[noop_frame] implies(!result, frameExcept("collationSortedTree.cok.src"))
+//@   ensures[noop_frame] implies(!result, frameExcept("collationSortedTree.cok.src", "CollationOrderKey.src"))
 //@   loop 1 (depth)
 //@     invariant 0 <= depth && depth <= len(colKey)
 //@     invariant n.pointer == (*ref).pointer && n.tag == (*ref).tag
@@ -891,7 +891,7 @@ func first(a, _ []byte) []byte { return a }
 //@   assume_at_call minimum : LinkedLive()
 //@   pathkey calls("Insert$1")
 //@   ensures[size_accounting] t.size == old(t.size) + calls("Insert$1")
-//@   ensures[overwrite_only_value] implies(calls("Insert$1") == 0 && calls("Get") == 0, frameExcept("collateLeafNode.value", "collationSortedTree.cok.src"))
+//@   ensures[overwrite_only_value] implies(calls("Insert$1") == 0 && calls("Get") == 0, frameExcept("collateLeafNode.value", "collationSortedTree.cok.src", "CollationOrderKey.src"))
 //@   ensures[wf] WF1_collation(t)
 //@   loop 1 (depth)
 //@     invariant 0 <= depth && depth <= len(colKey)
@@ -1164,7 +1164,7 @@ func first(a, _ []byte) []byte { return a }
 //@   opt extent on
 //@   requires WF1in_collation(t)
 //@   ensures[scratch_bounded] scratchLen(t.cok.buf) < 2147483648
-//@   ensures[pure] frameExcept("collationSortedTree.cok.src")
+//@   ensures[pure] frameExcept("collationSortedTree.cok.src", "CollationOrderKey.src")
 
 //@ func (*collationSortedTree[K,V]).Range
 //@   opt bind K=string
@@ -1173,7 +1173,7 @@ func first(a, _ []byte) []byte { return a }
 //@   opt extent on
 //@   requires WF1in_collation(t)
 //@   ensures[scratch_bounded] scratchLen(t.cok.buf) < 2147483648
-//@   ensures[pure] frameExcept("collationSortedTree.cok.src")
+//@   ensures[pure] frameExcept("collationSortedTree.cok.src", "CollationOrderKey.src")
 
 //@ func (*{unsigned,signed,float}SortedTree[K,V]).Range
 //@   opt kind $KIND
